@@ -12,6 +12,7 @@ PID = "C10"
 THEOREMS = [
     "c10_reachable_wf",
     "c10_reload_partial",
+    "c10_reload_stable",
     "c10_story_printable",
     "c10_reload_no_ctl_partial",
     "c10_params_substituted",
@@ -34,6 +35,7 @@ QUERIES = [
     ("T", "bad_indices case_text_bad cases"),
 ]
 ASSUMPTIONS = [
+    "clause kinds: all 28 kinds of Model/Config.v (title, author, attention, parameter, role with its action / spotlight / cleanup / signal lines and `extends`, cast incl. `x* play N`, tempo, scene entails / mood starts / mood ends, storyline, edit, repeat from / N times / always / time, watches signal / every role / variable, measures, only helps, audits / audits throughout, expects, expects like, collects, computes, ignore <result>, ignore / foul upon / require <member>) are inside c10_reachable_wf (the induction goes through every kind) and hence inside c10_reload_partial; no clause kind is covered by the correspondence only.  What IS correspondence-only: the lexical layer on the way in, the libraries behind the oracles, watcher lists / varNames order / sinks, and story_printable outside C06's no-control-white-space domain",
     "clause level: a clause is one accepted line with its fields already split; the regexps that recognise a line, white space, continuation lines, comments, section headers and includes are NOT in the Coq model - they are exercised only by the harness (free layout, comments, continuation lines, includes and parameters on the way in; the printed text is read back into clauses by the harness, and Coq checks on every case that Model/Config.v's `render` of that clause list is the printed text, byte for byte)",
     "outside the model, passed as oracles (the theorems hold for every value of them; the cases instantiate them with tables computed by the real libraries): govaluate (which variables an expression mentions), Go regexp (compiles, group names; MatchString / ReplaceAllString only for the literal letter-digit patterns the generator uses for `repeat from` and `edit`), time.ParseDuration / Duration.String (the theorem assumes ParseDuration(d.String()) = d and that a printed duration holds no `~`)",
     "not modelled (compared by the harness on the exported configuration only): cfg.varNames order, the variables' watcher lists, actor sinks (they only show in comment lines of -p and in the CSV / plot fan-out); identifiers are checked on bytes, every byte >= 0x80 counting as a letter",
